@@ -40,7 +40,7 @@ def case_strategy(draw, tier):
         x = draw(st.integers(lo, hi))
         y = draw(st.integers(x, min(hi, x + 2)))
         il.append([im, x, y])
-    dc = [list(t) for t in draw(st.lists(st.tuples(st.integers(0, 30), st.integers(0, 1), st.integers(0, 2)), max_size=3))]
+    dc = [list(t) for t in draw(st.lists(st.tuples(st.integers(0, 30), st.integers(0, 1), st.integers(0, 4)), max_size=3))]
     extra = draw(st.lists(st.lists(st.integers(0, 70000), min_size=len(ids), max_size=len(ids)), min_size=6, max_size=12))
     return {"model": spec, "dl": dl, "il": il, "dc": dc, "extra": extra}
 
@@ -84,7 +84,7 @@ def wide_assume_case(draw, tier):
         dl.append([draw(st.sampled_from([1, 2, 3, 4])) if j in chosen else 0, a, draw(st.integers(a, hi))])
         x = draw(st.sampled_from([lo, hi, hi])) if draw(st.booleans()) else draw(st.integers(lo, hi))
         il.append([draw(st.sampled_from([1, 1, 1, 1, 2, 0])), x, hi])
-    dc = [list(t_) for t_ in draw(st.lists(st.tuples(st.integers(0, 30), st.integers(0, 1), st.integers(0, 2)), max_size=2))]
+    dc = [list(t_) for t_ in draw(st.lists(st.tuples(st.integers(0, 30), st.integers(0, 1), st.integers(0, 4)), max_size=2))]
     extra = draw(st.lists(st.lists(st.integers(0, 70000), min_size=len(ids), max_size=len(ids)), min_size=6, max_size=8))
     return {"model": spec, "dl": dl, "il": il, "dc": dc, "extra": extra}
 
@@ -118,7 +118,7 @@ def siblings_case(draw, tier):
     ids = sorted(lv)
     dl = [[0, lv[i][0], lv[i][0]] for i in ids]
     il = [[1, draw(st.integers(lv[i][0], lv[i][1])), lv[i][1]] for i in ids]
-    dc = [list(t_) for t_ in draw(st.lists(st.tuples(st.integers(0, 30), st.integers(0, 1), st.integers(0, 2)), min_size=1, max_size=3))]
+    dc = [list(t_) for t_ in draw(st.lists(st.tuples(st.integers(0, 30), st.integers(0, 1), st.integers(0, 4)), min_size=1, max_size=3))]
     extra = draw(st.lists(st.lists(st.integers(0, 70000), min_size=len(ids), max_size=len(ids)), min_size=6, max_size=8))
     return {"model": spec, "dl": dl, "il": il, "dc": dc, "extra": extra}
 
@@ -161,7 +161,7 @@ def scale_assume_case(draw, tier):
         v = [lo, hi if (b1 and b2) else lo, hi if b1 else lo, hi][dens]
         dl.append([draw(st.sampled_from([1, 2])), v, v] if j in in_d else [0, lo, lo])
         il.append([1, v, hi])
-    dc = [list(t_) for t_ in draw(st.lists(st.tuples(st.integers(0, 400), st.integers(0, 1), st.integers(0, 2)), min_size=1, max_size=2))]
+    dc = [list(t_) for t_ in draw(st.lists(st.tuples(st.integers(0, 400), st.integers(0, 1), st.integers(0, 4)), min_size=1, max_size=2))]
     return {"model": spec, "dl": dl, "il": il, "dc": dc, "extra": []}
 
 
@@ -176,7 +176,7 @@ def big_dicts(tier):
         comp_sorted = ["A", "B", "C"]
         for which in (1, 2, 0):                 # index into the sorted compound ids: B, C, A
             for val in (0, 1):
-                for form in (0, 1, 2):
+                for form in (0, 1, 2, 3):
                     for pattern in ("zeros", "ones", "few"):
                         ones = set() if pattern == "zeros" else set(ids) if pattern == "ones" else {ids[0], ids[-1], ids[len(ids) // 2]}
                         yield {"model": spec, "dl": [[0, 0, 0] for _ in ids], "il": [[1, 1 if i in ones else 0, 1] for i in ids],
@@ -206,6 +206,12 @@ def check(case, ev):
             box[i] = _rng(mode, a, b)
     for k, val, f in case["dc"]:
         cid = cids[k % len(cids)]
+        if f >= 3:
+            # the sub-proposition id named with its FULL range (0,1) - "nothing known": no override, the node must still be
+            # computed from whatever is known about its children, now or in the later interpretation
+            D[cid] = (0, 1) if f == 3 else puan.Bounds(0, 1)
+            overrides.pop(cid, None)        # a later entry for the same id replaces an earlier one (it is a dictionary)
+            continue
         overrides[cid] = val
         D[cid] = val if f == 0 else ((val, val) if f == 1 else puan.Bounds(val, val))
     I = {}
@@ -309,7 +315,7 @@ def empty(slice_i, n):
     for spec in S.empty_shapes(slice_i, n):
         lv = oracle.spec_leaves(spec)
         ids = sorted(lv)
-        for who, dc in ((None, []), ("b", []), (None, [[0, 1, 0]]), (None, [[1, 0, 1]])):
+        for who, dc in ((None, []), ("b", []), (None, [[0, 1, 0]]), (None, [[1, 0, 1]]), (None, [[0, 0, 3]]), (None, [[1, 0, 4]])):
             if who is not None and who not in lv:
                 continue
             others = [i for i in ids if i != who]
